@@ -174,15 +174,18 @@ PROPS = {
             "C09_any_some", "C09_any_none", "C09_to_array_keys", "C09_to_array_values",
             "C09_native_sorted", "C09_native_min_max", "C09_native_to_array", "C09_native_passthrough",
             "C09_sorted_by_key_contract", "C09_min_max_by_key_contract", "C09_sorts_agree", "C09_std_filter", "C09_std_map", "C09_std_any", "C09_std_inputs_unchanged",
+            "C09_std_to_array", "C09_std_sorted_by_key", "C09_std_min_max_by_key", "C09_row_to_value_pure",
+            "C09_std_sorted", "C09_std_min_max", "C09_std_passthrough",
             "C09_tree_orderings_agree_on_samples"]},
-        n_quick=400, n_thorough=4000,
+        n_quick=300, n_thorough=4000,
         gen_timeout=3000,
         gates=["fn.filter", "fn.map", "fn.any", "fn.min", "fn.max", "fn.min_by_key", "fn.max_by_key", "fn.sorted",
                "fn.sorted_by_key", "fn.to_array", "size.0", "size.1", "size.2", "size.3-10", "size.11-40",
                "val.int", "val.real", "val.string", "val.nil", "val.table", "key.int", "key.real", "key.string",
                "key.nil", "dup_values", "ties", "mixed_int_real_equal", "nan_key", "negzero_key",
                "cb.script_fn", "cb.closure_counter", "cb.allocates", "cb.nested_std", "cb.mutates_input",
-               "cb.arity1", "cb.arity2", "cb.arity3", "input.non_table", "input.host_built",
+               "cb.arity1", "cb.arity2", "cb.arity3", "input.non_table", "input.host_built", "input.host_rooted",
+               "input.insert_value", "lowmem.host_rooted",
                "stream.lowmem", "lowmem.ok", "lowmem.gc", "obs.ok", "predict", "spec_only"],
         rule="one generated SCRIPT per case that calls ONE std function (filter, map, any, min, max, min_by_key, "
              "max_by_key, sorted, sorted_by_key, to_array) ONCE on one input: tables of 0, 1, 2 .. 40 entries built by "
